@@ -162,6 +162,8 @@ def gen_cases(tier):
     for T, ns, phases, full, ph3 in plans:
         for n in ns:
             for f in T.iter_forests(n):
+                if not full and tier == "quick" and all(len(t[1]) == 0 for t in f):
+                    continue  # flat forests of the larger size add nothing over n<=2 (no element above another)
                 base = spec_from_forest(f, pal, 1, 0.37)
                 # the two special configurations (explicit 0 entry, only-undefined phase) for every component of 1-node trees and for the last component otherwise
                 opts = [pc_options(c, phases, full, extras=(n == 1 or c is base["comps"][-1])) for c in base["comps"]]
